@@ -131,9 +131,9 @@ def run(ck):
         ck.anchor_missing("3", "T9-switch", "post-action switch", "expected one switch over a PostAction with >=3 arms in the batch loop, found %d" % len(pa_switches))
         raise AnchorMissing("post-action switch")
     sw = pa_switches[0]
-    ret_local = b.expr(b.blocks[sw]["term"]["on"])[2]["l"]
+    ret_local = b.expr(b.blocks[sw]["term"]["on"], at=sw)[2]["l"]
     # the switched-on value may be a copy of the variable the merge writes (argument of an inlined helper)
-    ret_locals = T.copy_chain_locals(b, b.expr(b.blocks[sw]["term"]["on"])[2]) | {ret_local}
+    ret_locals = T.copy_chain_locals(b, b.expr(b.blocks[sw]["term"]["on"], at=sw)[2]) | {ret_local}
     merged = [m for m in merges if m[2]["pl"]["l"] in ret_locals]
     if merged:
         ret_local = merged[0][2]["pl"]["l"]
